@@ -28,6 +28,7 @@ type LoopSpec struct {
 	Modifies   []*Clause
 	Decreases  *Clause
 	Body       bool
+	FrameFresh bool // `loop N frame fresh`: see freshLoop
 }
 
 type CutSpec struct {
@@ -289,6 +290,12 @@ func ParseContractFile(path, pkgPath string) (*ContractFile, error) {
 				ls.Invariants = append(ls.Invariants, newClause())
 			case "decreases":
 				ls.Decreases = newClause()
+			case "frame":
+				if rest != "fresh" {
+					return nil, fmt.Errorf("%s:%d: loop frame must be `fresh`", path, ln)
+				}
+				ls.FrameFresh = true
+				last = nil
 			case "unroll":
 				n, err := strconv.Atoi(rest)
 				if err != nil {
